@@ -83,8 +83,11 @@ TReconcile ==
            /\ faulted' = (faulted \/ Ev.hit)
            /\ UNCHANGED <<pod, now, par, restarted>>
            /\ SamePod(pod, AbsP(Ev.obs.p))                      \* the controller touches the pod only through Evict
-           /\ TmStep(job, job', lastCalls')                      \* (Tm)
-           /\ Expect(Strict => (pr.job = job' /\ pr.r = resv' /\ pr.calls = cs /\ pr.hit = Ev.hit), pr)
+           /\ Expect(/\ TmStep(job, job', lastCalls')                      \* (Tm)
+                     /\ (Strict => (pr.job = job' /\ pr.r = resv' /\ pr.calls = cs /\ pr.hit = Ev.hit)),
+                     \* explain mode: which clause is false in the state reached by this event, and what the transcription predicts
+                     [clauses |-> [G |-> G(cs), Tm |-> TmStep(job, job', lastCalls'), Tt |-> TtInv', Once |-> OnceInv'],
+                      transcription |-> pr])
 
 TraceInit == \E i \in Starts :
                 /\ TraceStart(i)
